@@ -19,7 +19,7 @@ use omaha_client::version::Version;
 use serde_json::json;
 use std::collections::{BTreeMap, VecDeque};
 use std::rc::Rc;
-use std::sync::atomic::AtomicBool;
+use std::sync::atomic::{AtomicBool, Ordering};
 use std::sync::{Arc, Mutex};
 
 const S: i128 = 1_000_000_000;
@@ -778,10 +778,10 @@ pub fn run_ctl(o: &Opts, rng: &mut Rng) -> Sink {
     use futures::FutureExt;
     let mut sink = Sink::new("ctl");
     if o.only_corpus { return sink; }
-    let n = if o.thorough { 600 } else { 60 };
+    let n = if o.thorough { 1600 } else { 160 };
     for k in 0..n {
         let seed = rng.next();
-        let kind = k % 3;
+        let kind = k % 4;
         let res = std::panic::catch_unwind(std::panic::AssertUnwindSafe(|| -> (String, String) {
             let mut r = Rng::new(seed);
             let mut init = gen_init(&mut r);
@@ -812,7 +812,70 @@ pub fn run_ctl(o: &Opts, rng: &mut Rng) -> Sink {
             }
             { let mut h = hub.lock().unwrap(); h.units = envs.iter().skip(1).cloned().collect(); h.env = envs[0].clone(); }
             let mut runner = Runner { hub: hub.clone(), stream: Box::pin(stream), handle: Some(handle), ctls: vec![], replies: vec![], flag, ended: false, polls: 0, stalled_wakeups: 0, contend: None, storage: None, app_set: None, contended: 0, crash_at: None, shared: None };
-            if kind == 0 {
+            if kind == 3 {
+                // a sequence of operations on the channel, against the channel model (Omaha/Chan.lean): requests, environment
+                // moves, runs of the machine to quiescence, the handles dropped, the machine dropped; after every operation
+                // each request's future is polled and its status printed
+                let mut ops: Vec<String> = vec![];
+                let mut outs: Vec<String> = vec![];
+                let mut ids: Vec<usize> = vec![];
+                let mut next_id = 1usize;
+                let nops = 4 + r.below(10);
+                let drop_at = if r.chance(3, 4) { Some(r.below(nops)) } else { None };
+                let mut dead = false;
+                let mut spare = runner.handle.clone();          // requests are still made after `h` through a clone taken before
+                for i in 0..nops {
+                    let seen = runner.replies.len();
+                    let mut drained = false;
+                    let op = if Some(i) == drop_at && !dead { 4 } else { match r.below(10) { 0..=3 => 0, 4..=6 => 1, 7 | 8 => 2, _ => 3 } };
+                    match op {
+                        0 => {
+                            let id = next_id; next_id += 1;
+                            if runner.handle.is_none() { runner.handle = spare.take(); }
+                            if runner.handle.is_none() { ops.push("e".into()); } else {
+                                runner.submit_ctl(id, r.chance(1, 2));
+                                ids.push(id);
+                                ops.push(format!("s{}", id));
+                            }
+                        }
+                        1 => {
+                            // run the machine until it blocks (no environment move)
+                            if !dead {
+                                loop {
+                                    let mut progressed = false;
+                                    while runner.poll_stream() { progressed = true; }
+                                    let before = runner.replies.len();
+                                    runner.poll_ctls();
+                                    if runner.replies.len() > before { progressed = true; }
+                                    if !progressed && !runner.flag.0.load(Ordering::SeqCst) { break; }
+                                    if !progressed { runner.flag.0.store(false, Ordering::SeqCst); }
+                                }
+                            }
+                            drained = true;
+                        }
+                        2 => {
+                            // one move of the environment: the exchange in flight completes, or the next timer fires
+                            let mut h = hub.lock().unwrap();
+                            if let Some(g) = h.http_waiting { h.http_seen += 1; h.release(g); }
+                            else if let Some(Step::Fire(i)) = h.env.wake.first().cloned() { h.env.wake.remove(0); if let Some(&g) = h.timers.get(i) { h.release(g); } }
+                            ops.push("e".into());
+                        }
+                        3 => { runner.handle = None; if r.chance(1, 2) { spare = None; } ops.push("h".into()); }
+                        _ => {
+                            runner.stream = Box::pin(futures::stream::empty());
+                            runner.ended = true; dead = true;
+                            ops.push("d".into());
+                        }
+                    }
+                    runner.poll_ctls();
+                    if drained {
+                        let obs: Vec<String> = runner.replies[seen..].iter().filter(|(_, s)| s != "gone").map(|(id, s)| format!("{}:{}", id, s)).collect();
+                        ops.push(format!("p{}", obs.join(",")));
+                    }
+                    outs.push(ids.iter().map(|id| format!("{}={}", id, runner.replies.iter().find(|(i, _)| i == id).map(|(_, s)| s.clone()).unwrap_or("pending".into()))).collect::<Vec<_>>().join(","));
+                }
+                (format!("seq {}", ops.join(";")), outs.join("|"))
+            } else if kind == 0 {
                 // gone: run some units, then drop the machine (its stream) and ask
                 let before = r.below(nunits as u64 + 1) as usize;
                 for _ in 0..before { runner.run_unit(); }
@@ -863,7 +926,7 @@ pub fn run_ctl(o: &Opts, rng: &mut Rng) -> Sink {
             }
         }));
         match res {
-            Ok((inp, out)) => { let class = Some(inp.clone()); sink.case(format!("{} seed={}", inp, seed), class, move || out); }
+            Ok((inp, out)) => { let class = Some(if inp.starts_with("seq ") { format!("seq ops={} drop={} handles-dropped={}", inp.matches(';').count() + 1, inp.contains(";d") as u8, inp.contains(";h") as u8) } else { inp.clone() }); sink.case(format!("{} seed={}", inp, seed), class, move || out); }
             Err(_) => { sink.case(format!("panic seed={}", seed), None, || "panic".into()); }
         }
     }
